@@ -1126,3 +1126,16 @@ impl<Backing : AsRef<[u32]> + AsMut<[u32]>> DrawTarget<Backing> {
         writer.write_image_data(&output)
     }
 }
+
+#[cfg(raqote_verif)]
+impl<Backing> DrawTarget<Backing> {
+    /// Verification hook: is the shared rasterizer back in its initial state?
+    pub fn verif_rasterizer_idle(&self) -> bool {
+        self.rasterizer.verif_is_idle()
+    }
+
+    /// Verification hook: (clip stack depth, layer stack depth).
+    pub fn verif_stack_depths(&self) -> (usize, usize) {
+        (self.clip_stack.len(), self.layer_stack.len())
+    }
+}
